@@ -2081,10 +2081,11 @@ impl Compiler {
                 if let Some(local_register) = self.frame().get_local_assigned_register(*id) {
                     // The item to be imported is already locally assigned.
                     if local_register != result_register {
+                        self.push_op(Copy, &[result_register, local_register]);
                         if wildcard_import {
-                            self.push_op(ImportAll, &[local_register]);
-                        } else {
-                            self.push_op(Copy, &[result_register, local_register]);
+                            // The result register needs to contain the imported map,
+                            // it gets exported when top-level ids are being exported.
+                            self.push_op(ImportAll, &[result_register]);
                         }
                     }
                     Ok(())
